@@ -30,21 +30,22 @@ META = {
                   "models + tables regenerated from unit.txt / plate_motion_models + vm_compute correspondence with midgard "
                   "(exact rational evaluation, coq-interval enclosures for pi, cos, sin)"),
     "level_text": (
-        "Theorems in Coq 8.16: unit factors val(a)/val(b) are reciprocal and transitive for all 48 units of the table "
+        "Theorems in Coq 8.16: unit factors val(a)/val(b) are reciprocal and transitive for all 49 units of the table "
         "(angles as rational multiples of pi); deg/min/sec decomposition round-trips for every rational angle, negative "
-        "angles below one degree included, and is the unique well-formed decomposition; the Lagrange interpolator as coded "
+        "angles below one degree included (degree API over Q, radian API over R), and is the unique well-formed decomposition; the Lagrange interpolator as coded "
         "(argsort, argmin window, clamping, rescaling) reproduces the samples, is linear in the data, invariant under "
         "reordering of the samples, column-wise for n-d data, independent of the mean/std rescaling and reproduces every "
-        "polynomial of degree < window; GDOP^2 = PDOP^2 + TDOP^2 and PDOP^2 = HDOP^2 + VDOP^2 for every geometry, DOPs "
-        "invariant under reordering and under a common azimuth rotation; plate velocity omega x r perpendicular to r and "
-        "omega.  Each model is tied to the code on every run: unit.txt and the pole tables are regenerated into Coq, and "
+        "polynomial of degree < window; the piecewise-linear interpolator (interp1d linear) reproduces nodes and straight lines, is linear, "
+        "permutation invariant and column-wise; GDOP^2 = PDOP^2 + TDOP^2 and PDOP^2 = HDOP^2 + VDOP^2 for every geometry, DOPs "
+        "invariant under reordering and under a common azimuth rotation, four-satellite case (H^T H)^-1 = H^-1 H^-T; plate velocity omega x r "
+        "perpendicular to r and omega, Euler pole spherical/cartesian round trip.  Each model is tied to the code on every run: unit.txt and the pole tables are regenerated into Coq, and "
         "all unit pairs/triples, angles in [-360,360], random sample sets / windows / 1-d and n-d data, satellite "
         "geometries and all plates x positions are run on midgard and compared with the models inside Coq."),
     "level_note": (
-        "Partial: the SciPy-backed interpolators (linear, cubic, interpolated_univariate_spline, barycentric) have no Coq "
-        "model - only the laws (nodes, linearity, permutation where accepted, n-d = column-wise) are checked on the "
-        "implementation.  DMS theorems are over rational degrees (the radian API is checked through a bracket of pi). "
-        "DOP model rows are midpoints of 2^-80-wide coq-interval enclosures of cos/sin (comparison tolerance 1e-9 relative, "
+        "Partial: the SciPy-backed interpolators cubic, interpolated_univariate_spline and barycentric (linear is modelled) have no Coq "
+        "model - only the laws (nodes, linearity, permutation where accepted, n-d = column-wise, storage type) are checked on the "
+        "implementation.  DMS: degree API over Q, radian API over R (not executable; checked through a bracket of pi). "
+        "DOP model rows are midpoints of (at most) 2^-80-wide coq-interval enclosures of cos/sin (comparison tolerance 1e-9 relative, "
         "widened by the condition estimate). Trusted: Coq kernel + vm_compute, coq-interval, the hand-written models "
         "(validated by the correspondence, not derived), pint's parsing of unit names in the regeneration of unit.txt."),
 }
